@@ -104,6 +104,7 @@ void WorkerPool<T, Neighbors, N>::run(
 
     while (!done.load() && !settings.cancel.load())
     {
+        LIBFIVE_VERIF_POINT("pool.loop", &settings);
         // Prioritize picking up a local task before going to
         // the MPMC queue, to keep things in this thread for
         // as long as possible.
@@ -193,6 +194,7 @@ void WorkerPool<T, Neighbors, N>::run(
         else
         {
             t->evalLeaf(eval, tape, object_pool, neighbors);
+            LIBFIVE_VERIF_POINT("pool.leaf", &settings);
         }
 
         if (settings.progress_handler)
@@ -228,6 +230,7 @@ void WorkerPool<T, Neighbors, N>::run(
                                                   object_pool,
                                                   settings.max_err))
         {
+            LIBFIVE_VERIF_POINT("pool.collect", &settings);
             // Report the volume of completed trees as we walk back
             // up towards the root of the tree.
             if (settings.progress_handler) {
